@@ -1500,7 +1500,7 @@ def tr2delta(T0, T1=None):
         #  incremental transformation from T0 to T1 in the T0 frame
         Td = trinv(T0) @ T1
 
-    return np.r_[transl(Td), base.vex(base.t2r(Td) - np.eye(3))]
+    return np.r_[transl(Td), base.vex(base.t2r(Td) - np.eye(3, dtype=Td.dtype))]
 
 
 def tr2jac(T, samebody=False):
